@@ -530,6 +530,43 @@ pub fn run(ctx: &Ctx) -> Report {
     });
     st = st.merge(st_e);
 
+    // (e') folded form bodies with raw special characters (byte-order mark, zero-width marks, NUL, line ends):
+    //      they are bytes of the first / last name or value like any other
+    {
+        let bodies = super::c12::special_form_bodies();
+        let n_s = bodies.len() as u64 * 2;
+        let part = par_sweep(n_s, |i, st| {
+            let (label, body) = &bodies[(i / 2) as usize];
+            let carrier = if i % 2 == 0 { Carrier::Header } else { Carrier::Query };
+            let params = match parse_query(std::str::from_utf8(body).unwrap()) {
+                Ok(p) => p,
+                Err(_) => machinery_error("C10 (e'): harness body does not parse"),
+            };
+            let mut plan = e2e::base_plan(carrier);
+            plan.method = "POST".into();
+            plan.url_params = vec![(b"u".to_vec(), b"1".to_vec())];
+            plan.body = body.clone();
+            plan.body_params = Some(params);
+            plan.headers.push(("Content-Type".into(), b"application/x-www-form-urlencoded".to_vec()));
+            plan.signed.push("content-type".into());
+            let mut cfg = Cfg::basic(e2e::base_instant());
+            cfg.fold = true;
+            let case = Case { wire: WireReq::from_wire(&build(&plan).wire), cfg, prov: ProvSpec::standard() };
+            let before = st.violations.len();
+            let j = e2e::judge_into(base_e + e2e_lists * 6 + i, &case, st);
+            if st.violations.len() > before {
+                if let Some(v) = st.violations.last_mut() {
+                    v.what = format!("folded-form({}):{}", label, v.what);
+                }
+            }
+            if !j.reference.accepted() {
+                machinery_error(&format!("C10 (e') {}: the reference refuses its own request", label));
+            }
+            st.nontrivial(&(label, carrier, "special-form"));
+        });
+        st = st.merge(part);
+    }
+
     // (f) histories: every ordered pair of queries from an alphabet of related strings, one right after the
     //     other on the same thread — prefixes and extensions of one another, case / escape / separator variants,
     //     long strings with a long common prefix, the same pairs in another order; each judged alone
@@ -552,7 +589,7 @@ pub fn run(ctx: &Ctx) -> Report {
         v
     };
     let nh = hist.len() as u64;
-    let base_f = base_e + e2e_lists * 6;
+    let base_f = base_e + e2e_lists * 6 + 1000;
     let st_f = par_sweep(nh * nh, |i, st| {
         let (x, y) = (&hist[(i / nh) as usize], &hist[(i % nh) as usize]);
         for (step, q) in [x, y].into_iter().enumerate() {
@@ -574,7 +611,7 @@ pub fn run(ctx: &Ctx) -> Report {
     Report {
         stats: st,
         rule: format!(
-            "(a) every ordered list of 0..={} parameters over {} names x {} values (all permutations included), compared with the reference canonical string computed from the logical multiset; (b) every list of <= {} parameters in every combination of {} per-element spellings (canonical, lower-case hex, needless escape, '+' for space, everything escaped) plus '&&'/leading/trailing '&' at every gap and omitted '='; (c) every byte 0..255 as %XX in both hex cases and every literal char < U+0800 in a name and in a value, every two-character escape over ASCII^2, malformed escapes at every position of three templates, '%' followed by multi-byte characters; 128 queries of 21..257 parameters over 1, 2, 3 or 8 repeated names in 4 arrival orders, each canonicalised 16 times through fresh maps; (d) iteration-order exhaustion of the crate's own HashMap for {} queries on worker and fresh OS threads, digests from {} fresh processes; (e) end-to-end acceptance of reference-signed requests for every list of <= 2 parameters on both carriers, all in the URL and with the last / all pairs in a folded form body (the same pair may then stand in both places); (f) every ordered pair over 58 related query strings (prefixes / extensions, case, escape and separator variants, 100- and 70-parameter strings differing only at the end, malformed ones) evaluated back to back on one thread, each judged alone. states = distinct canonical strings; non-trivial = input differs from its canonical form",
+            "(a) every ordered list of 0..={} parameters over {} names x {} values (all permutations included), compared with the reference canonical string computed from the logical multiset; (b) every list of <= {} parameters in every combination of {} per-element spellings (canonical, lower-case hex, needless escape, '+' for space, everything escaped) plus '&&'/leading/trailing '&' at every gap and omitted '='; (c) every byte 0..255 as %XX in both hex cases and every literal char < U+0800 in a name and in a value, every two-character escape over ASCII^2, malformed escapes at every position of three templates, '%' followed by multi-byte characters; 128 queries of 21..257 parameters over 1, 2, 3 or 8 repeated names in 4 arrival orders, each canonicalised 16 times through fresh maps; (d) iteration-order exhaustion of the crate's own HashMap for {} queries on worker and fresh OS threads, digests from {} fresh processes; (e) end-to-end acceptance of reference-signed requests for every list of <= 2 parameters on both carriers, all in the URL and with the last / all pairs in a folded form body (the same pair may then stand in both places), and 12 folded form bodies with a raw byte-order mark, zero-width marks, NUL or line ends; (f) every ordered pair over 58 related query strings (prefixes / extensions, case, escape and separator variants, 100- and 70-parameter strings differing only at the end, malformed ones) evaluated back to back on one thread, each judged alone. states = distinct canonical strings; non-trivial = input differs from its canonical form",
             max_len, NAMES.len(), VALUES.len(), resp_len, NVARIANTS, order_queries.len(), nproc
         ),
         bounds: json!({"max_params": max_len, "respelled_params": resp_len, "names": NAMES.len(), "values": VALUES.len()}),
